@@ -3,8 +3,8 @@ import collections, random, socket
 from vlib import core, corr
 
 AREA = "C16"
-MODULES = ["TinsModel.Props.C16"]
-AUDIT = "Audit/C16.lean"
+MODULES = ["TinsModel.Props.C16", "TinsModel.Props.Limits.C16"]   # + the constants / limits tied to the source (translator/gen_limits.py)
+AUDIT = ["Audit/C16.lean", "Audit/LimitsC16.lean"]
 LEVEL = "proof"
 HARNESS = "c16_address"
 HARNESS_FLAGS = ["-fno-access-control"]      # the harness prints AddressRange::first_/last_ themselves
@@ -20,6 +20,10 @@ MANIFEST = dict(
          "std::hash<string>/std::hash<uint32_t> are libstdc++.",
     technique="Lean 4 proof (induction over address bytes / range length) + model/impl correspondence + spec oracle",
     design="DESIGN.md §6 C16")
+MANIFEST["note"] += (" Constants and limits of the C++ source that the model restates (translator/gen_limits.py -> Gen/Limits.lean: "
+                     "compiled probe + preprocessed function bodies at named anchors) are tied to the model's numerals by the "
+                     "theorems of lean/TinsModel/Props/Limits/C16.lean (audit: Audit/LimitsC16.lean); tools/LIMITS-INVENTORY.md lists "
+                     "what is tied and what is not.")
 
 FAMS = {"4": 4, "6": 16, "h": 6}
 CASE_START = ("cmp", "bit", "txt", "fmt", "pfx", "msk", "rng", "has", "inc", "dec")
@@ -343,7 +347,12 @@ def sig_of(kind, detail, case):
 
 
 def run(chk):
+    from translator import gen_limits
+    gen_limits.main([])          # Gen/Limits.lean: constants and limits read from the current source
+    chk.trusted.append("translator/gen_limits.py (constants / limits of the source -> Gen/Limits.lean: compiled probe + "
+                       "preprocessed function bodies at named anchors; tied to the model numerals by Props/Limits/C16.lean)")
     problems = chk.prove(MODULES, AUDIT, want_leanchecker=(chk.tier == "thorough"))
+    problems = gen_limits.name_failures(chk, problems, "C16")   # name the tie theorems that fail
     exe, err = core.build_harness(HARNESS, extra=HARNESS_FLAGS)
     if exe is None:
         chk.violation("implementation does not build: " + err[-1500:], ["build-error"], nofail=True)
